@@ -44,17 +44,31 @@ def lazy_facts(ctx, eff):
 
 
 def get_is_guarded(ctx):
-    """registry.get starts with `if <already loaded>: return <cached>` so that the writing part runs only on a miss."""
+    """A second registry.get of the same name touches neither the file system nor the cache: it returns the cached object before doing
+    any work.  Decided by evaluation on a virtual directory (two calls in one path; the second must produce no directory listing,
+    no file read and no store into the cache, and return the very object the first returned)."""
+    from ..interp import CannotEvaluate, Interp, PathLimit
     g = ctx.program.get("schwifty.registry.get")
-    body = [st for st in g.node.body if not (isinstance(st, ast.Expr) and isinstance(st.value, ast.Constant))]
-    if not body or not isinstance(body[0], ast.If):
+    it = Interp(ctx.program)
+    it.vfs = {("path", "schwifty", "iban_registry"): [("a.json", {"AA": {"x": 1}}), ("b.json", {"AA": {"y": 2}})]}
+    marks = {}
+
+    def thunk():
+        first = it.call_func(g, ["iban"], {}, None)
+        marks["n"] = len(it.events)
+        second = it.call_func(g, ["iban"], {}, None)
+        return first, second
+
+    try:
+        outs = [o for o in it.explore(thunk, max_paths=50) if o.kind != "infeasible"]
+    except (CannotEvaluate, PathLimit) as e:
+        raise AnalysisError(f"cannot evaluate registry.get twice on a virtual directory: {e}")
+    if len(outs) != 1 or outs[0].kind != "return":
         return False
-    first = body[0]
-    if not any(isinstance(st, ast.Return) for st in first.body):
-        return False
-    t = first.test
-    txt = ast.unparse(t)
-    return "has(" in txt or "in _registry" in txt
+    first, second = outs[0].value
+    later = outs[0].events[marks["n"]:]
+    touched = [e for e in later if e["kind"] in ("glob", "open", "json_load", "store_item", "mutate", "global_store")]
+    return first is second and not touched
 
 
 def slow_path_skip(ctx, eff, lazy_ok):
@@ -97,10 +111,11 @@ def run(ctx, report):
         if id(f) not in runtime_all or f.qualname in IMPORT_ONLY:
             continue
         arg = n.args[0] if n.args else None
-        name = arg.value if isinstance(arg, ast.Constant) else None
+        from ..intrinsics import const_str
+        name = const_str(prog, f.module, arg) if arg is not None else None
         r_lazy.instance({"site": f"{f.module.relpath}:{n.lineno}", "function": f.short, "name": name})
         if name is None:
-            r_lazy.finding(f"{f.short}:get", f"registry.get is called at run time with a non-literal name ({ast.unparse(arg) if arg else '?'}); it may load and write the cache "
+            r_lazy.finding(f"{f.short}:get", f"registry.get is called at run time with a name that is not a compile-time constant ({ast.unparse(arg) if arg else '?'}); it may load and write the cache "
                            "from several threads at once", f"{f.module.relpath}:{n.lineno}")
             lazy_ok = False
         elif name not in loaded:
